@@ -265,6 +265,13 @@ func checkGateState(c *checkCtx, prefix string) {
 					return // window ambiguity: stop comparing this breaker
 				}
 			}
+			// state after the history (a breaker changes state only on a request or a record)
+			if end, ok := c.Res.BreakerEnd[pi]; ok && len(steps) > 0 {
+				c.cov("gate.breaker_state_checked")
+				if end[0] != m.state {
+					c.fail(prefix+"breaker-state", "end-state", fmt.Sprintf("after the history circuit breaker %d is %s but the documented machine is %s", pi, brStateNames[end[0]], brStateNames[m.state]))
+				}
+			}
 		}
 	}
 }
